@@ -10,7 +10,7 @@ VERIF = os.path.dirname(os.path.dirname(os.path.abspath(__file__)))
 
 
 def main():
-    src = sys.argv[1]
+    src = os.path.abspath(sys.argv[1])
     patch = os.path.join(src, 'patch.diff') if os.path.isdir(src) else src
     wt = tempfile.mkdtemp(prefix='trywt_', dir='/tmp')
     os.rmdir(wt)
